@@ -1,0 +1,40 @@
+//go:build verif
+
+// Accessors for the external verification harness (/verif), property C08.  Compiled only with
+// -tags verif; add-only, no behaviour of the package changes.
+package kcp
+
+import "crypto/cipher"
+
+// VerifEncrypt8 calls the unexported unrolled CFB helper encrypt8 (buf: ≥ 8 bytes).
+func VerifEncrypt8(block cipher.Block, dst, src, buf []byte) { encrypt8(block, dst, src, buf) }
+
+// VerifEncrypt16 calls the unexported unrolled CFB helper encrypt16 (buf: ≥ 16 bytes).
+func VerifEncrypt16(block cipher.Block, dst, src, buf []byte) { encrypt16(block, dst, src, buf) }
+
+// VerifDecrypt8 calls the unexported unrolled CFB helper decrypt8 (buf: ≥ 16 bytes).
+func VerifDecrypt8(block cipher.Block, dst, src, buf []byte) { decrypt8(block, dst, src, buf) }
+
+// VerifDecrypt16 calls the unexported unrolled CFB helper decrypt16 (buf: ≥ 32 bytes).
+func VerifDecrypt16(block cipher.Block, dst, src, buf []byte) { decrypt16(block, dst, src, buf) }
+
+// VerifNewBlockCrypt wraps an arbitrary cipher.Block exactly as the New…BlockCrypt
+// constructors do (dispatch on BlockSize, package-owned working buffers, mutexes).
+func VerifNewBlockCrypt(block cipher.Block) BlockCrypt { return newBlockCrypt(block) }
+
+// VerifInitialVector returns a copy of the package's fixed CFB IV.
+func VerifInitialVector() []byte { return append([]byte(nil), initialVector...) }
+
+// VerifXorTable returns a copy of the table of a simple-XOR crypt (nil for other types).
+func VerifXorTable(c BlockCrypt) []byte {
+	if x, ok := c.(*simpleXORBlockCrypt); ok {
+		return append([]byte(nil), x.xortbl...)
+	}
+	return nil
+}
+
+// VerifPoolGet takes a packet buffer from the package's buffer pool (cap = mtuLimit).
+func VerifPoolGet() []byte { return defaultBufferPool.Get() }
+
+// VerifPoolPut returns a buffer taken with VerifPoolGet.
+func VerifPoolPut(b []byte) error { return defaultBufferPool.Put(b) }
